@@ -479,8 +479,9 @@ def from_particles(ctx, with_n_modes):
     def h_fit(I, st, args, kw, node):
         """Contract of fit_mvstud (C19): for >= 1 rows returns (location (d,), scale (d,d), dof > 0 or +inf)."""
         X = st.arr(args[0])
-        env = st.env
-        u, labels, label = st.arr(env["u"]), st.arr(env["labels"]), env["label"]
+        u, labels = info["u_arr"], info["lab"]
+        label = I.frame_lookup(st, info["loop_var"])
+        outside = label is None        # a fit outside the loop over the mode labels has no label of its own: an all-particle fit
         r, c = z3.Int(fresh_name("r")), z3.Int(fresh_name("c"))
         R, d = to_z3(X.shape[0], "int"), to_z3(X.shape[1], "int")
         I.oblige(f"call:fit_mvstud:at-least-one-row@{node.lineno}", st, R >= 1, node)
@@ -495,9 +496,11 @@ def from_particles(ctx, with_n_modes):
             elif inner is u:
                 W = lambda rr: idx2.at(rr)
         n_lab = st.ghost.get("n_with_label")
-        fallback = z3.BoolVal(False)
-        if with_n_modes and n_lab is not None:
-            fallback = to_z3(n_lab, "int") <= to_z3(env["n_dim"], "int")
+        fallback = z3.BoolVal(outside)
+        if outside:
+            label = z3.IntVal(-1)
+        elif with_n_modes and n_lab is not None:
+            fallback = to_z3(n_lab, "int") <= info["d"]
         N = to_z3(u.shape[0], "int")
         if W is not None:
             goal = z3.ForAll([r], z3.Implies(z3.And(r >= 0, r < R), z3.And(
@@ -586,7 +589,9 @@ def from_particles(ctx, with_n_modes):
             st.assume(z3.ForAll([q], z3.Implies(z3.And(q >= 0, q < n), z3.And(lab.at(q) >= 0, lab.at(q) < K)), patterns=[lab.at(q)]))
             kw["n_modes"] = K
             info["K"] = K
-        info.update(n=n, d=d, fb=fb, lab=lab)
+        fd = eff.qualname_index(ctx.mods).get((MODES, "ModeStatistics.from_particles"))
+        loop0 = next((x for x in ast.walk(fd) if isinstance(x, ast.For)), None) if fd else None
+        info.update(n=n, d=d, fb=fb, lab=lab, u_arr=u, loop_var=loop0.target.id if loop0 is not None and isinstance(loop0.target, ast.Name) else "label")
         return dict(args=[("class", MODES, "ModeStatistics"), st.new_arr(u), st.new_arr(w), st.new_arr(lab)], kwargs=kw)
 
     def inv(v):
@@ -639,7 +644,34 @@ def from_particles(ctx, with_n_modes):
                loops=loops, registry=reg, extras=ex, allowed_raises=(), replayer="c14_modes")
 
 
+def one_shared_clusterer(ctx):
+    """Effect contract: the `clusterer` attribute of the steps is assigned only in constructors (Trainer.__init__,
+    Resampler.__init__, from the one object SamplerCore.__init__ creates).  Any later assignment (e.g. on resume) can leave
+    Trainer and Resampler with different models: labels would then come from one model and modes from another."""
+    bad = []
+    for (m, q), f in eff.qualname_index(ctx.mods).items():
+        if q.endswith(".__init__"):
+            continue
+        for n in ast.walk(f):
+            tg = []
+            if isinstance(n, ast.Assign):
+                tg = n.targets
+            elif isinstance(n, (ast.AugAssign, ast.AnnAssign)):
+                tg = [n.target]
+            for t in tg:
+                for e in ast.walk(t):
+                    if isinstance(e, ast.Attribute) and e.attr == "clusterer" and isinstance(e.ctx, ast.Store):
+                        bad.append(f"{m}.{q}:{n.lineno} assigns {ast.unparse(e)}")
+            if isinstance(n, ast.Call) and (eff.dotted(n.func) or "").split(".")[-1] in ("setattr", "__setattr__"):
+                if any(isinstance(a, ast.Constant) and a.value == "clusterer" for a in n.args):
+                    bad.append(f"{m}.{q}:{n.lineno} sets 'clusterer' dynamically")
+    r = ctx.add(ObResult("C14/effects/clusterer-attribute-assigned-only-in-constructors", "violated" if bad else "discharged", "pyvc-eff", 0.0, 1,
+                         "; ".join(bad[:4]), kind="effect"))
+    r.replayer = "c14_modes"
+
+
 def run(ctx):
+    one_shared_clusterer(ctx)
     clusterer_init(ctx)
     for c in (True, False):
         trainer(ctx, c)
